@@ -32,3 +32,648 @@ fn decimals_compare_len4() {
     kani::cover!(la != lb && a[0] == 0 && b[0] == 0);
     kani::cover!(la != lb && a[0] == 0xFF && b[0] == 0xFF);
 }
+
+// ---------------------------------------------------------------------------------------------
+// float16 / NaN / per-sort-order comparisons
+// ---------------------------------------------------------------------------------------------
+
+// Contract (C07): compare_greater_f16(a,b) <=> totalOrder key(a) > key(b) for all 2-byte little-endian
+// bit patterns (IEEE-754 totalOrder: -NaN < -inf < ... < -0 < +0 < ... < +inf < +NaN; key16 is the
+// sign-magnitude -> two's-complement map).
+// @unit name=f16_compare props=C07 kind=complete fns=compare_greater_f16 timeout=120
+#[kani::proof]
+fn f16_compare() {
+    let a: [u8; 2] = kani::any(); let b: [u8; 2] = kani::any();
+    let r = compare_greater_f16(&a, &b);
+    assert!(r == (key16(u16::from_le_bytes(a)) > key16(u16::from_le_bytes(b))));
+    kani::cover!(r);
+    kani::cover!(!r && a != b);
+    kani::cover!(a == [0x00, 0x00] && b == [0x00, 0x80] && r);   // +0 > -0 under totalOrder
+}
+
+/// cheapest way to get a real ColumnDescriptor: the public primitive-type builder (all arguments concrete)
+fn mk_descr(phys: Type, conv: ConvertedType, logical: Option<LogicalType>, len: i32, prec: i32, scale: i32) -> ColumnDescriptor {
+    let t = crate::schema::types::Type::primitive_type_builder("c", phys)
+        .with_converted_type(conv)
+        .with_logical_type(logical)
+        .with_length(len)
+        .with_precision(prec)
+        .with_scale(scale)
+        .build()
+        .unwrap();
+    ColumnDescriptor::new(std::sync::Arc::new(t), 0, 0, crate::schema::types::ColumnPath::new(Vec::new()))
+}
+
+fn ieee_nan16(bits: u16) -> bool { (bits >> 10) & 0x1f == 0x1f && bits & 0x3ff != 0 }
+fn ieee_nan32(bits: u32) -> bool { (bits >> 23) & 0xff == 0xff && bits & 0x7f_ffff != 0 }
+fn ieee_nan64(bits: u64) -> bool { (bits >> 52) & 0x7ff == 0x7ff && bits & 0xf_ffff_ffff_ffff != 0 }
+
+// Contract (C07): is_nan::<f32>(v) <=> v's bit pattern is an IEEE-754 NaN (exponent all ones, fraction
+// non-zero), for every bit pattern; same for f64; and is_nan is false for every i32/i64 value (integers
+// have no NaN) whatever the sort order. Descriptor: FLOAT / DOUBLE / INT32(UINT_32) / INT64 built by the real builder.
+// @unit name=is_nan_f32_f64_int props=C07 kind=complete fns=is_nan timeout=300
+#[kani::proof]
+#[kani::stub(alloc::fmt::format, stub_format)]
+fn is_nan_f32_f64_int() {
+    let d32 = mk_descr(Type::FLOAT, ConvertedType::NONE, None, -1, -1, -1);
+    let x: u32 = kani::any();
+    let r = is_nan(d32.get_basic_info(), &f32::from_bits(x));
+    assert!(r == ieee_nan32(x));
+    kani::cover!(r); kani::cover!(!r);
+    let d64 = mk_descr(Type::DOUBLE, ConvertedType::NONE, None, -1, -1, -1);
+    let y: u64 = kani::any();
+    let r = is_nan(d64.get_basic_info(), &f64::from_bits(y));
+    assert!(r == ieee_nan64(y));
+    kani::cover!(r); kani::cover!(!r);
+    let du = mk_descr(Type::INT32, ConvertedType::UINT_32, None, -1, -1, -1);
+    let i: i32 = kani::any();
+    assert!(!is_nan(du.get_basic_info(), &i));
+    let l: i64 = kani::any();
+    assert!(!is_nan(d64.get_basic_info(), &l));
+    std::mem::forget(d32); std::mem::forget(d64); std::mem::forget(du);
+}
+
+/// A FIXED_LEN_BYTE_ARRAY value with symbolic content. The backing `bytes::Bytes` is built with `Bytes::from_static` over a
+/// leaked copy, so that the clone/drop glue that update_min/update_max run on the OLD bound (`*min = val.clone()`) goes
+/// through the constant STATIC vtable instead of the pointer-tagged promotable vtable of `Bytes::from(Vec)` (forget rule:
+/// that drop glue is what makes CBMC run out of memory). The code under contract only sees `as_bytes()` and `clone()`.
+fn flba(v: &[u8]) -> FixedLenByteArray {
+    let leaked: &'static [u8] = Box::leak(v.to_vec().into_boxed_slice());
+    FixedLenByteArray::from(ByteArray::from(Bytes::from_static(leaked)))
+}
+fn f16_descr() -> ColumnDescriptor { mk_descr(Type::FIXED_LEN_BYTE_ARRAY, ConvertedType::NONE, Some(LogicalType::Float16), 2, -1, -1) }
+
+// Contract (C07): for a FIXED_LEN_BYTE_ARRAY(2) column annotated Float16 (sort order TOTAL_ORDER as resolved by
+// the real type builder), is_nan(v) <=> the little-endian 16-bit pattern is an IEEE NaN; for a plain
+// FIXED_LEN_BYTE_ARRAY(2) column (no Float16 annotation) is_nan is false for every pattern.
+// @unit name=is_nan_f16 props=C07 kind=complete fns=is_nan timeout=300
+#[kani::proof]
+#[kani::stub(alloc::fmt::format, stub_format)]
+fn is_nan_f16() {
+    let d = f16_descr();
+    assert!(matches!(d.sort_order(), SortOrder::TOTAL_ORDER));
+    let x: [u8; 2] = kani::any();
+    let v = flba(&x);
+    let r = is_nan(d.get_basic_info(), &v);
+    assert!(r == ieee_nan16(u16::from_le_bytes(x)));
+    kani::cover!(r); kani::cover!(!r);
+    let plain = mk_descr(Type::FIXED_LEN_BYTE_ARRAY, ConvertedType::NONE, None, 2, -1, -1);
+    assert!(!is_nan(plain.get_basic_info(), &v));
+    std::mem::forget(v); std::mem::forget(d); std::mem::forget(plain);
+}
+
+// Contract (C07): compare_greater::<i32> is the strict order of the column's declared sort order:
+// signed (no annotation, INT_32, Date) -> a > b as i32; unsigned (converted UINT_8/16/32 or logical
+// Integer{32,unsigned}) -> a > b as u32. compare_greater_unsigned_int::<i32> is the u32 order.
+// @unit name=compare_greater_i32 props=C07 kind=complete fns=compare_greater,compare_greater_unsigned_int timeout=300
+#[kani::proof]
+#[kani::stub(alloc::fmt::format, stub_format)]
+fn compare_greater_i32() {
+    let a: i32 = kani::any(); let b: i32 = kani::any();
+    let s1 = mk_descr(Type::INT32, ConvertedType::NONE, None, -1, -1, -1);
+    let s2 = mk_descr(Type::INT32, ConvertedType::INT_32, None, -1, -1, -1);
+    let s3 = mk_descr(Type::INT32, ConvertedType::NONE, Some(LogicalType::Date), -1, -1, -1);
+    assert!(compare_greater(s1.get_basic_info(), &a, &b) == (a > b));
+    assert!(compare_greater(s2.get_basic_info(), &a, &b) == (a > b));
+    assert!(compare_greater(s3.get_basic_info(), &a, &b) == (a > b));
+    let u1 = mk_descr(Type::INT32, ConvertedType::UINT_32, None, -1, -1, -1);
+    let u2 = mk_descr(Type::INT32, ConvertedType::UINT_8, None, -1, -1, -1);
+    let u3 = mk_descr(Type::INT32, ConvertedType::NONE, Some(LogicalType::integer(32, false)), -1, -1, -1);
+    let spec_u = (a as u32) > (b as u32);
+    assert!(compare_greater(u1.get_basic_info(), &a, &b) == spec_u);
+    assert!(compare_greater(u2.get_basic_info(), &a, &b) == spec_u);
+    assert!(compare_greater(u3.get_basic_info(), &a, &b) == spec_u);
+    assert!(compare_greater_unsigned_int(&a, &b) == spec_u);
+    kani::cover!(a < 0 && b > 0 && spec_u);      // the two orders disagree
+    kani::cover!(a > b); kani::cover!(a == b);
+    for d in [s1, s2, s3, u1, u2, u3] { std::mem::forget(d); }
+}
+
+// Contract (C07): compare_greater::<i64>: signed order without annotation / INT_64 / Timestamp; u64 order for
+// UINT_64 and logical Integer{64,unsigned}; compare_greater_unsigned_int::<i64> is the u64 order.
+// @unit name=compare_greater_i64 props=C07 kind=complete fns=compare_greater,compare_greater_unsigned_int timeout=300
+#[kani::proof]
+#[kani::stub(alloc::fmt::format, stub_format)]
+fn compare_greater_i64() {
+    let a: i64 = kani::any(); let b: i64 = kani::any();
+    let s1 = mk_descr(Type::INT64, ConvertedType::NONE, None, -1, -1, -1);
+    let s2 = mk_descr(Type::INT64, ConvertedType::INT_64, None, -1, -1, -1);
+    let s3 = mk_descr(Type::INT64, ConvertedType::TIMESTAMP_MICROS, None, -1, -1, -1);
+    assert!(compare_greater(s1.get_basic_info(), &a, &b) == (a > b));
+    assert!(compare_greater(s2.get_basic_info(), &a, &b) == (a > b));
+    assert!(compare_greater(s3.get_basic_info(), &a, &b) == (a > b));
+    let u1 = mk_descr(Type::INT64, ConvertedType::UINT_64, None, -1, -1, -1);
+    let u2 = mk_descr(Type::INT64, ConvertedType::NONE, Some(LogicalType::integer(64, false)), -1, -1, -1);
+    let spec_u = (a as u64) > (b as u64);
+    assert!(compare_greater(u1.get_basic_info(), &a, &b) == spec_u);
+    assert!(compare_greater(u2.get_basic_info(), &a, &b) == spec_u);
+    assert!(compare_greater_unsigned_int(&a, &b) == spec_u);
+    kani::cover!(a < 0 && b > 0 && spec_u);
+    kani::cover!(a > b); kani::cover!(a == b);
+    for d in [s1, s2, s3, u1, u2] { std::mem::forget(d); }
+}
+
+// Contract (C07): compare_greater::<f32>/<f64> is IEEE-754 totalOrder on the bit patterns (all patterns,
+// NaN payloads and signed zeros included). (The BOOLEAN instance `a > b` on bool is not checkable: Kani 0.68
+// mis-models `bool: PartialOrd` -- `(p > q) == (p && !q)` fails on two symbolic bools without any arrow code.)
+// @unit name=compare_greater_float props=C07 kind=complete fns=compare_greater timeout=300
+#[kani::proof]
+#[kani::stub(alloc::fmt::format, stub_format)]
+fn compare_greater_float() {
+    let d32 = mk_descr(Type::FLOAT, ConvertedType::NONE, None, -1, -1, -1);
+    let (a, b): (u32, u32) = (kani::any(), kani::any());
+    let r = compare_greater(d32.get_basic_info(), &f32::from_bits(a), &f32::from_bits(b));
+    assert!(r == (key32(a) > key32(b)));
+    kani::cover!(r && ieee_nan32(a)); kani::cover!(!r && a != b);
+    let d64 = mk_descr(Type::DOUBLE, ConvertedType::NONE, None, -1, -1, -1);
+    let (x, y): (u64, u64) = (kani::any(), kani::any());
+    let r = compare_greater(d64.get_basic_info(), &f64::from_bits(x), &f64::from_bits(y));
+    assert!(r == (key64(x) > key64(y)));
+    kani::cover!(r && x == 0 && y == 1u64 << 63);    // +0 > -0
+    for d in [d32, d64] { std::mem::forget(d); }
+}
+
+// Contract (C07): for a Float16 column (FIXED_LEN_BYTE_ARRAY(2), logical Float16) compare_greater is totalOrder
+// on the little-endian 16-bit patterns (NOT the unsigned byte order of plain FIXED_LEN_BYTE_ARRAY).
+// @unit name=compare_greater_flba_f16 props=C07 kind=complete fns=compare_greater,compare_greater_f16 timeout=300
+#[kani::proof]
+#[kani::stub(alloc::fmt::format, stub_format)]
+fn compare_greater_flba_f16() {
+    let d = f16_descr();
+    let (a, b): ([u8; 2], [u8; 2]) = (kani::any(), kani::any());
+    let (va, vb) = (flba(&a), flba(&b));
+    let r = compare_greater(d.get_basic_info(), &va, &vb);
+    assert!(r == (key16(u16::from_le_bytes(a)) > key16(u16::from_le_bytes(b))));
+    kani::cover!(r); kani::cover!(!r && a != b);
+    kani::cover!(r && a < b);                     // differs from the byte order
+    std::mem::forget(va); std::mem::forget(vb); std::mem::forget(d);
+}
+
+/// unsigned bytewise lexicographic "a > b" (first-difference scan, shorter prefix sorts first)
+fn lex_gt(a: &[u8], b: &[u8]) -> bool {
+    let mut i = 0;
+    while i < a.len() && i < b.len() {
+        if a[i] != b[i] { return a[i] > b[i]; }
+        i += 1;
+    }
+    a.len() > b.len()
+}
+
+// Contract (C07): for BYTE_ARRAY columns without a decimal annotation (plain, UTF8 converted type, String logical
+// type: sort order UNSIGNED) compare_greater is the unsigned bytewise lexicographic order (a proper prefix sorts
+// first); same for plain FIXED_LEN_BYTE_ARRAY. Lengths are concrete per harness (allocation sizes), contents symbolic.
+macro_rules! cmp_bytes {
+    ($name:ident, $la:expr, $lb:expr) => {
+        #[kani::proof]
+        #[kani::unwind(6)]
+        #[kani::stub(alloc::fmt::format, stub_format)]
+        fn $name() {
+            let a: [u8; $la] = kani::any(); let b: [u8; $lb] = kani::any();
+            let (va, vb) = (ByteArray::from(a.to_vec()), ByteArray::from(b.to_vec()));
+            let spec = lex_gt(&a, &b);
+            let d1 = mk_descr(Type::BYTE_ARRAY, ConvertedType::NONE, None, -1, -1, -1);
+            let d2 = mk_descr(Type::BYTE_ARRAY, ConvertedType::UTF8, None, -1, -1, -1);
+            let d3 = mk_descr(Type::BYTE_ARRAY, ConvertedType::NONE, Some(LogicalType::String), -1, -1, -1);
+            assert!(compare_greater(d1.get_basic_info(), &va, &vb) == spec);
+            assert!(compare_greater(d2.get_basic_info(), &va, &vb) == spec);
+            assert!(compare_greater(d3.get_basic_info(), &va, &vb) == spec);
+            let (fa, fb) = (FixedLenByteArray::from(va), FixedLenByteArray::from(vb));
+            if $la == $lb {
+                let d4 = mk_descr(Type::FIXED_LEN_BYTE_ARRAY, ConvertedType::NONE, None, $la, -1, -1);
+                assert!(compare_greater(d4.get_basic_info(), &fa, &fb) == spec);
+                std::mem::forget(d4);
+            }
+            kani::cover!($la == 0 || $lb == 0 || spec);
+            kani::cover!($la == 0 || $lb == 0 || !spec);
+            kani::cover!($la == $lb || (spec == ($la > $lb)) || ($la > 0 && $lb > 0));   // an empty value sorts lowest
+            std::mem::forget(fa); std::mem::forget(fb);
+            for d in [d1, d2, d3] { std::mem::forget(d); }
+        }
+    };
+}
+// @unit name=compare_greater_bytes_3_3 props=C07 kind=bounded bound=lengths_3_and_3 fns=compare_greater timeout=300
+cmp_bytes!(compare_greater_bytes_3_3, 3, 3);
+// @unit name=compare_greater_bytes_2_3 props=C07 kind=bounded bound=lengths_2_and_3 fns=compare_greater timeout=300
+cmp_bytes!(compare_greater_bytes_2_3, 2, 3);
+// @unit name=compare_greater_bytes_3_1 props=C07 kind=bounded bound=lengths_3_and_1 fns=compare_greater timeout=300 tier=thorough
+cmp_bytes!(compare_greater_bytes_3_1, 3, 1);
+// @unit name=compare_greater_bytes_0_2 props=C07 kind=bounded bound=lengths_0_and_2 fns=compare_greater timeout=300
+cmp_bytes!(compare_greater_bytes_0_2, 0, 2);
+
+// Contract (C07): for BYTE_ARRAY columns annotated DECIMAL (converted type, or logical Decimal) compare_greater is the
+// order of the big-endian two's-complement integers (sext), also for values of different lengths.
+macro_rules! cmp_decimal_bytes {
+    ($name:ident, $la:expr, $lb:expr) => {
+        #[kani::proof]
+        #[kani::unwind(6)]
+        #[kani::stub(alloc::fmt::format, stub_format)]
+        fn $name() {
+            let a: [u8; $la] = kani::any(); let b: [u8; $lb] = kani::any();
+            let (va, vb) = (ByteArray::from(a.to_vec()), ByteArray::from(b.to_vec()));
+            let spec = sext(&a) > sext(&b);
+            let d1 = mk_descr(Type::BYTE_ARRAY, ConvertedType::DECIMAL, None, -1, 5, 2);
+            let d2 = mk_descr(Type::BYTE_ARRAY, ConvertedType::NONE, Some(LogicalType::decimal(2, 5)), -1, 5, 2);
+            assert!(compare_greater(d1.get_basic_info(), &va, &vb) == spec);
+            assert!(compare_greater(d2.get_basic_info(), &va, &vb) == spec);
+            kani::cover!(spec && lex_gt(&b, &a));     // differs from the unsigned byte order
+            kani::cover!(!spec);
+            std::mem::forget(va); std::mem::forget(vb);
+            for d in [d1, d2] { std::mem::forget(d); }
+        }
+    };
+}
+// @unit name=compare_greater_decimal_bytes_2_3 props=C07 kind=bounded bound=lengths_2_and_3 fns=compare_greater,compare_greater_byte_array_decimals timeout=300
+cmp_decimal_bytes!(compare_greater_decimal_bytes_2_3, 2, 3);
+// @unit name=compare_greater_decimal_bytes_3_3 props=C07 kind=bounded bound=lengths_3_and_3 fns=compare_greater,compare_greater_byte_array_decimals timeout=300 tier=thorough
+cmp_decimal_bytes!(compare_greater_decimal_bytes_3_3, 3, 3);
+
+// Contract (C07): compare_greater::<Int96> (column order INT96_TIMESTAMP_ORDER) is the chronological order of the
+// legacy timestamp layout: Julian day = third little-endian u32 as i32, nanoseconds-of-day = first two words as a
+// little-endian i64; (day, nanos) compared lexicographically.
+// @unit name=compare_greater_int96 props=C07 kind=complete fns=compare_greater timeout=300
+#[kani::proof]
+#[kani::stub(alloc::fmt::format, stub_format)]
+fn compare_greater_int96() {
+    let d = mk_descr(Type::INT96, ConvertedType::NONE, None, -1, -1, -1);
+    let (a, b): ([u32; 3], [u32; 3]) = (kani::any(), kani::any());
+    let (mut va, mut vb) = (Int96::new(), Int96::new());
+    va.set_data(a[0], a[1], a[2]); vb.set_data(b[0], b[1], b[2]);
+    let key = |x: [u32; 3]| ((x[2] as i32) as i128) * (1i128 << 64) + ((((x[1] as u64) << 32) | x[0] as u64) as i64) as i128;
+    assert!(compare_greater(d.get_basic_info(), &va, &vb) == (key(a) > key(b)));
+    kani::cover!(key(a) > key(b) && a[2] == b[2]);
+    kani::cover!(key(a) < key(b));
+    std::mem::forget(d);
+}
+
+// ---------------------------------------------------------------------------------------------
+// update_min / update_max / update_stat
+// ---------------------------------------------------------------------------------------------
+
+// Contract (C07): update_stat(val, cur, f) sets *cur = val exactly when f(cur) holds, else leaves it (frame).
+// @unit name=update_stat_contract props=C07 kind=complete fns=update_stat timeout=120
+#[kani::proof]
+fn update_stat_contract() {
+    let val: i64 = kani::any(); let cur0: i64 = kani::any(); let flag: bool = kani::any();
+    let seen = std::cell::Cell::new(0i64);
+    let mut cur = cur0;
+    update_stat(&val, &mut cur, |c: &i64| { seen.set(*c); flag });
+    assert!(seen.get() == cur0);                       // the predicate is asked about the current bound
+    assert!(cur == if flag { val } else { cur0 });
+    kani::cover!(flag && val != cur0); kani::cover!(!flag);
+}
+
+// Contract (C07, f32 column): after update_min(d, v, &mut min) / update_max:
+//  - None -> Some(v) bit-exactly (first value adopted, NaN included);
+//  - the new bound is bit-identical to the old bound or to v (attained);
+//  - if the old bound is non-NaN, a NaN v is skipped (bound unchanged);
+//  - if the old bound is NaN and v is not, the bound becomes v (NaN never survives a non-NaN value);
+//  - otherwise new min = the totalOrder-smaller (max: larger) of the two, the old one on ties:
+//    hence new min <= old min and new min <= v under totalOrder whenever v is not NaN.
+// @unit name=update_min_max_f32 props=C07 kind=complete fns=update_min,update_max,update_stat,is_nan,compare_greater timeout=300
+#[kani::proof]
+#[kani::stub(alloc::fmt::format, stub_format)]
+fn update_min_max_f32() {
+    let d = mk_descr(Type::FLOAT, ConvertedType::NONE, None, -1, -1, -1);
+    let (c, v): (u32, u32) = (kani::any(), kani::any());
+    let val = f32::from_bits(v);
+    let mut m: Option<f32> = None;
+    update_min(&d, &val, &mut m);
+    assert!(m.map(f32::to_bits) == Some(v));
+    let mut m: Option<f32> = None;
+    update_max(&d, &val, &mut m);
+    assert!(m.map(f32::to_bits) == Some(v));
+
+    let mut mn = Some(f32::from_bits(c));
+    update_min(&d, &val, &mut mn);
+    let n = mn.unwrap().to_bits();
+    let mut mx = Some(f32::from_bits(c));
+    update_max(&d, &val, &mut mx);
+    let x = mx.unwrap().to_bits();
+    let (cn, vn) = (ieee_nan32(c), ieee_nan32(v));
+    let spec_min = if !cn && vn { c } else if cn && !vn { v } else if key32(v) < key32(c) { v } else { c };
+    let spec_max = if !cn && vn { c } else if cn && !vn { v } else if key32(v) > key32(c) { v } else { c };
+    assert!(n == spec_min && x == spec_max);
+    // consequences stated by the property: bounds bound every non-NaN value, NaN only if nothing else was seen
+    if !vn { assert!(key32(n) <= key32(v) && key32(x) >= key32(v) && !ieee_nan32(n) && !ieee_nan32(x)); }
+    if !cn { assert!(key32(n) <= key32(c) && key32(x) >= key32(c)); }
+    kani::cover!(!cn && vn); kani::cover!(cn && !vn); kani::cover!(cn && vn && n == v);
+    kani::cover!(!cn && !vn && n == v && v != c); kani::cover!(!cn && !vn && x == v && v != c);
+    kani::cover!(c == 0 && v == 1 << 31 && n == v && x == c);      // -0 < +0
+    std::mem::forget(d);
+}
+
+// Contract (C07, f64 column): same contract as update_min_max_f32 on 64-bit patterns.
+// @unit name=update_min_max_f64 props=C07 kind=complete fns=update_min,update_max,update_stat,is_nan,compare_greater timeout=300
+#[kani::proof]
+#[kani::stub(alloc::fmt::format, stub_format)]
+fn update_min_max_f64() {
+    let d = mk_descr(Type::DOUBLE, ConvertedType::NONE, None, -1, -1, -1);
+    let (c, v): (u64, u64) = (kani::any(), kani::any());
+    let val = f64::from_bits(v);
+    let mut m: Option<f64> = None;
+    update_min(&d, &val, &mut m);
+    assert!(m.map(f64::to_bits) == Some(v));
+    let mut mn = Some(f64::from_bits(c));
+    update_min(&d, &val, &mut mn);
+    let n = mn.unwrap().to_bits();
+    let mut mx = Some(f64::from_bits(c));
+    update_max(&d, &val, &mut mx);
+    let x = mx.unwrap().to_bits();
+    let (cn, vn) = (ieee_nan64(c), ieee_nan64(v));
+    let spec_min = if !cn && vn { c } else if cn && !vn { v } else if key64(v) < key64(c) { v } else { c };
+    let spec_max = if !cn && vn { c } else if cn && !vn { v } else if key64(v) > key64(c) { v } else { c };
+    assert!(n == spec_min && x == spec_max);
+    kani::cover!(!cn && vn); kani::cover!(cn && !vn); kani::cover!(!cn && !vn && n == v && v != c);
+    std::mem::forget(d);
+}
+
+// Contract (C07, INT32 columns): update_min/update_max keep the minimum / maximum under the DECLARED order:
+// signed for a plain INT32 column, unsigned (as u32) for a UINT_32 column; None -> Some(v).
+// @unit name=update_min_max_i32 props=C07 kind=complete fns=update_min,update_max,update_stat,compare_greater timeout=300
+#[kani::proof]
+#[kani::stub(alloc::fmt::format, stub_format)]
+fn update_min_max_i32() {
+    let ds = mk_descr(Type::INT32, ConvertedType::NONE, None, -1, -1, -1);
+    let du = mk_descr(Type::INT32, ConvertedType::UINT_32, None, -1, -1, -1);
+    let (c, v): (i32, i32) = (kani::any(), kani::any());
+    let mut m = None; update_min(&ds, &v, &mut m); assert!(m == Some(v));
+    let mut m = None; update_max(&du, &v, &mut m); assert!(m == Some(v));
+    let mut m = Some(c); update_min(&ds, &v, &mut m); assert!(m == Some(if v < c { v } else { c }));
+    let mut m = Some(c); update_max(&ds, &v, &mut m); assert!(m == Some(if v > c { v } else { c }));
+    let mut m = Some(c); update_min(&du, &v, &mut m); assert!(m == Some(if (v as u32) < (c as u32) { v } else { c }));
+    let mut m = Some(c); update_max(&du, &v, &mut m); assert!(m == Some(if (v as u32) > (c as u32) { v } else { c }));
+    kani::cover!(v < 0 && c > 0); kani::cover!(v == c);
+    std::mem::forget(ds); std::mem::forget(du);
+}
+
+// Contract (C07, Float16 column = FIXED_LEN_BYTE_ARRAY(2) + Float16): same NaN/totalOrder contract as
+// update_min_max_f32 on the little-endian 16-bit patterns.
+// @unit name=update_min_max_f16 props=C07 kind=complete fns=update_min,update_max,update_stat,is_nan,compare_greater,compare_greater_f16 timeout=400 tier=thorough
+#[kani::proof]
+#[kani::stub(alloc::fmt::format, stub_format)]
+fn update_min_max_f16() {
+    let d = f16_descr();
+    let (cb, vb): ([u8; 2], [u8; 2]) = (kani::any(), kani::any());
+    let (c, v) = (u16::from_le_bytes(cb), u16::from_le_bytes(vb));
+    let val = flba(&vb);
+    let mut first: Option<FixedLenByteArray> = None;
+    update_min(&d, &val, &mut first);
+    assert!(first.as_ref().unwrap().data() == &vb[..]);
+    let mut mn = Some(flba(&cb));
+    update_min(&d, &val, &mut mn);
+    let mut mx = Some(flba(&cb));
+    update_max(&d, &val, &mut mx);
+    let n = u16::from_le_bytes(mn.as_ref().unwrap().data().try_into().unwrap());
+    let x = u16::from_le_bytes(mx.as_ref().unwrap().data().try_into().unwrap());
+    let (cn, vn) = (ieee_nan16(c), ieee_nan16(v));
+    let spec_min = if !cn && vn { c } else if cn && !vn { v } else if key16(v) < key16(c) { v } else { c };
+    let spec_max = if !cn && vn { c } else if cn && !vn { v } else if key16(v) > key16(c) { v } else { c };
+    assert!(n == spec_min && x == spec_max);
+    kani::cover!(!cn && vn); kani::cover!(cn && !vn); kani::cover!(!cn && !vn && n == v && v != c);
+    kani::cover!(!cn && !vn && x == v && v != c);
+    std::mem::forget(val); std::mem::forget(first); std::mem::forget(mn); std::mem::forget(mx); std::mem::forget(d);
+}
+
+// ---------------------------------------------------------------------------------------------
+// decimals up to 16 bytes (every Decimal128)
+// ---------------------------------------------------------------------------------------------
+
+/// sext for up to 16 bytes, result in i128 (exact: a 16-byte two's-complement integer is an i128)
+fn sext16(b: &[u8]) -> i128 {
+    let mut v: i128 = if b[0] & 0x80 != 0 { -1 } else { 0 };
+    let mut i = 0;
+    while i < b.len() { v = (v << 8) | b[i] as i128; i += 1; }
+    v
+}
+
+// Contract (C07): as decimals_compare_len4, for byte strings of 1..=16 bytes each (covers every Decimal128 stored
+// as BYTE_ARRAY / FIXED_LEN_BYTE_ARRAY): compare_greater_byte_array_decimals(a,b) <=> sext(a) > sext(b).
+// @unit name=decimals_compare_len16 props=C07 kind=bounded bound=each_value_1..=16_bytes fns=compare_greater_byte_array_decimals tier=thorough mem=4 timeout=900
+#[kani::proof]
+#[kani::unwind(18)]
+fn decimals_compare_len16() {
+    let a: [u8; 16] = kani::any(); let b: [u8; 16] = kani::any();
+    let la: usize = kani::any(); let lb: usize = kani::any();
+    kani::assume(la >= 1 && la <= 16 && lb >= 1 && lb <= 16);
+    let r = compare_greater_byte_array_decimals(&a[..la], &b[..lb]);
+    assert!(r == (sext16(&a[..la]) > sext16(&b[..lb])));
+    kani::cover!(la == 16 && lb == 9 && r);
+    kani::cover!(la == 3 && lb == 16 && !r && a[0] == 0xFF && b[0] == 0xFF);
+}
+
+// Contract (C07): empty operands (degenerate BYTE_ARRAY decimals): a > b iff a is non-empty and b is empty.
+// @unit name=decimals_compare_empty props=C07 kind=bounded bound=other_value_<=4_bytes fns=compare_greater_byte_array_decimals timeout=120
+#[kani::proof]
+#[kani::unwind(6)]
+fn decimals_compare_empty() {
+    let a: [u8; 4] = kani::any(); let la: usize = kani::any(); kani::assume(la <= 4);
+    assert!(compare_greater_byte_array_decimals(&a[..la], &[]) == (la > 0));
+    assert!(!compare_greater_byte_array_decimals(&[], &a[..la]));
+    kani::cover!(la == 0); kani::cover!(la == 4);
+}
+
+// ---------------------------------------------------------------------------------------------
+// increment (binary upper bound)
+// ---------------------------------------------------------------------------------------------
+
+/// big-endian value of <= 12 bytes
+fn be_val(b: &[u8]) -> u128 { let mut v = 0u128; let mut i = 0; while i < b.len() { v = (v << 8) | b[i] as u128; i += 1; } v }
+
+// Contract (C07): increment(d) for a byte string d (the truncated max statistic):
+//   None  <=> every byte of d is 0xFF (in particular for the empty string): no string of that length is greater;
+//   Some(r) => len(r) = len(d) and r = d + 1 as big-endian integers, i.e. r is the LEAST string of that length that is
+//   bytewise-lexicographically greater than d (no string of that length lies strictly between); consequently
+//   r > d and r > every extension of d (the value the statistic was truncated from).
+macro_rules! increment_unit {
+    ($name:ident, $n:expr, $unw:expr) => {
+        #[kani::proof]
+        #[kani::unwind($unw)]
+        fn $name() {
+            let d: [u8; $n] = kani::any();
+            let n: usize = kani::any(); kani::assume(n <= $n);
+            let mut all_ff = true; let mut i = 0;
+            while i < n { if d[i] != 0xFF { all_ff = false; } i += 1; }
+            match increment(d[..n].to_vec()) {
+                Some(r) => {
+                    assert!(!all_ff);
+                    assert!(r.len() == n);
+                    assert!(be_val(&r) == be_val(&d[..n]) + 1);
+                    assert!(lex_gt(&r, &d[..n]));
+                    kani::cover!(n == $n && d[$n - 1] == 0xFF && d[$n - 2] == 0xFF);   // carry over two bytes
+                    kani::cover!(n == 1);
+                }
+                None => { assert!(all_ff); kani::cover!(n == 0); kani::cover!(n == $n); }
+            }
+        }
+    };
+}
+// @unit name=increment_len6 props=C07 kind=bounded bound=len<=6 fns=increment timeout=300
+increment_unit!(increment_len6, 6, 8);
+// @unit name=increment_len12 props=C07 kind=bounded bound=len<=12 fns=increment tier=thorough timeout=900
+increment_unit!(increment_len12, 12, 14);
+
+// Contract (C07): the non-UTF-8 branch of truncate_max_value: for data longer than l, increment(data[..l]) = Some(r)
+// implies r > data bytewise (an upper bound of the untruncated value, not only of its prefix), and r has l bytes.
+// @unit name=increment_bounds_extension props=C07 kind=bounded bound=data<=6_bytes fns=increment timeout=300
+#[kani::proof]
+#[kani::unwind(8)]
+fn increment_bounds_extension() {
+    let d: [u8; 6] = kani::any();
+    let n: usize = kani::any(); let l: usize = kani::any();
+    kani::assume(n <= 6 && l < n);
+    if let Some(r) = increment(d[..l].to_vec()) {
+        assert!(r.len() == l);
+        assert!(lex_gt(&r, &d[..n]));
+        kani::cover!(l == 2 && n == 6);
+    }
+}
+
+// ---------------------------------------------------------------------------------------------
+// UTF-8 aware truncation of string statistics
+// ---------------------------------------------------------------------------------------------
+
+/// UTF-8 width of a scalar value (RFC 3629)
+fn w8(u: u32) -> usize { if u < 0x80 { 1 } else if u < 0x800 { 2 } else if u < 0x1_0000 { 3 } else { 4 } }
+fn is_scalar(u: u32) -> bool { u <= 0x10_FFFF && !(u >= 0xD800 && u <= 0xDFFF) }
+/// "the character can be incremented without changing its encoded width" (doc comment of increment_utf8)
+fn incrementable(c: char) -> bool { let u = c as u32 + 1; is_scalar(u) && w8(u) == w8(c as u32) }
+
+/// spec-side loops over <= 12 bytes / <= 3 characters are written unrolled so that the harness-wide unwind bound
+/// only has to cover the loops of the code under test (one iteration per character).
+macro_rules! unroll12 { ($i:ident, $body:block) => {
+    { let $i = 0usize; $body } { let $i = 1usize; $body } { let $i = 2usize; $body } { let $i = 3usize; $body }
+    { let $i = 4usize; $body } { let $i = 5usize; $body } { let $i = 6usize; $body } { let $i = 7usize; $body }
+    { let $i = 8usize; $body } { let $i = 9usize; $body } { let $i = 10usize; $body } { let $i = 11usize; $body }
+} }
+macro_rules! unroll3 { ($i:ident, $body:block) => { { let $i = 0usize; $body } { let $i = 1usize; $body } { let $i = 2usize; $body } } }
+/// lex_gt for strings of <= 12 bytes, unrolled
+fn lex_gt12(a: &[u8], b: &[u8]) -> bool {
+    unroll12!(i, { if i < a.len() && i < b.len() && a[i] != b[i] { return a[i] > b[i]; } });
+    a.len() > b.len()
+}
+
+/// A valid UTF-8 string CONSTRUCTED from n <= K <= 3 symbolic scalar values (1..4-byte encodings, both sides of the
+/// surrogate gap and U+10FFFF are all reachable): chars, n, bytes, byte length, start offset of each char.
+struct SymStr<const K: usize, const B: usize> { ch: [char; K], n: usize, buf: [u8; B], len: usize, off: [usize; K] }
+fn sym_str<const K: usize, const B: usize>() -> SymStr<K, B> {
+    let mut s = SymStr { ch: ['a'; K], n: kani::any(), buf: [0u8; B], len: 0, off: [0; K] };
+    kani::assume(s.n <= K);
+    unroll3!(i, { if i < K && i < s.n {
+        let c: char = kani::any();
+        s.ch[i] = c; s.off[i] = s.len;
+        s.len += c.encode_utf8(&mut s.buf[s.len..]).len();
+    } });
+    s
+}
+impl<const K: usize, const B: usize> SymStr<K, B> {
+    fn as_str(&self) -> &str { unsafe { std::str::from_utf8_unchecked(&self.buf[..self.len]) } } // valid by construction
+    /// number of whole leading characters that fit in the first `limit` bytes, and their byte length
+    fn fit(&self, limit: usize) -> (usize, usize) {
+        let (mut k, mut bytes) = (0, 0);
+        unroll3!(i, { if i < K && i < self.n && self.off[i] + w8(self.ch[i] as u32) <= limit { k = i + 1; bytes = self.off[i] + w8(self.ch[i] as u32); } });
+        (k, bytes)
+    }
+    /// expected result of incrementing the string made of the first k characters: (prefix bytes kept, new last char)
+    fn spec_increment(&self, k: usize) -> Option<(usize, char)> {
+        let mut res = None;
+        unroll3!(i, { if i < K && i < k && incrementable(self.ch[i]) { res = Some((self.off[i], char::from_u32(self.ch[i] as u32 + 1).unwrap())); } });
+        res
+    }
+    /// r == buf[..keep] ++ utf8(c)
+    fn is_prefix_plus(&self, r: &[u8], keep: usize, c: char) -> bool {
+        let mut e = [0u8; 4]; let el = c.encode_utf8(&mut e).len();
+        if r.len() != keep + el { return false; }
+        unroll12!(i, { if i < r.len() && r[i] != (if i < keep { self.buf[i] } else { e[i - keep] }) { return false; } });
+        true
+    }
+}
+
+// Contract (C07): increment_utf8(s) for a valid UTF-8 string s = c0..c(n-1):
+//   let j = the LAST index whose character can be incremented to the next scalar value of the same encoded width
+//   (c+1 is not a surrogate, <= U+10FFFF, same width). None <=> no such j. Some(r) <=> r = utf8(c0..c(j-1), cj + 1).
+//   Hence r is valid UTF-8, len(r) <= len(s), and r > s bytewise (an upper bound for every string with prefix s).
+macro_rules! increment_utf8_unit {
+    ($name:ident, $k:expr, $b:expr, $unw:expr) => {
+        #[kani::proof]
+        #[kani::unwind($unw)]
+        fn $name() {
+            let s = sym_str::<$k, $b>();
+            let r = increment_utf8(s.as_str());
+            match (s.spec_increment(s.n), r) {
+                (None, None) => { kani::cover!(s.n == 1 && s.ch[0] == '\u{10FFFF}'); kani::cover!(s.n == $k && s.ch[0] == '\u{7f}'); kani::cover!(s.n == 0);
+                                  kani::cover!(s.n == $k && s.ch[$k - 1] == '\u{D7FF}'); }               // just below the surrogate gap
+                (Some((keep, c)), Some(r)) => {
+                    assert!(s.is_prefix_plus(&r, keep, c));
+                    assert!(r.len() <= s.len);
+                    assert!(lex_gt12(&r, &s.buf[..s.len]));
+                    kani::cover!($k == 1 || (s.n == $k && s.ch[$k - 1] == '\u{D7FF}' && r.len() < s.len)); // surrogate gap: last char dropped
+                    kani::cover!(s.n == $k && s.ch[0] == '\u{E000}');
+                    kani::cover!(s.len == $b);                                      // all 4-byte characters
+                }
+                _ => assert!(false),
+            }
+        }
+    };
+}
+// @unit name=increment_utf8_1char props=C07 kind=bounded bound=<=1_scalar_value fns=increment_utf8 timeout=600
+increment_utf8_unit!(increment_utf8_1char, 1, 4, 3);
+// @unit name=increment_utf8_2chars props=C07 kind=bounded bound=<=2_scalar_values_(<=8_bytes) fns=increment_utf8 tier=thorough mem=6 timeout=1800
+increment_utf8_unit!(increment_utf8_2chars, 2, 8, 4);
+
+// Contract (C07): truncate_utf8(s, l) under the caller's precondition len(s) > l:
+//   Some(r) <=> the first character fits in l bytes (and l >= 1); then r = the LONGEST prefix of s made of whole
+//   characters with 1 <= len(r) <= l (so r is valid UTF-8, a prefix of s, hence r <= s bytewise: a lower bound).
+//   None <=> l = 0 or the first character is wider than l.
+macro_rules! truncate_utf8_unit {
+    ($name:ident, $k:expr, $b:expr, $unw:expr) => {
+        #[kani::proof]
+        #[kani::unwind($unw)]
+        fn $name() {
+            let s = sym_str::<$k, $b>();
+            let l: usize = kani::any(); kani::assume(l < s.len);
+            let (k, bytes) = s.fit(l);
+            match truncate_utf8(s.as_str(), l) {
+                None => { assert!(k == 0); kani::cover!(l == 3); kani::cover!(l == 0); }
+                Some(r) => {
+                    assert!(k >= 1 && r.len() == bytes && r.len() <= l && r.len() >= 1);
+                    let whole: &[u8] = &s.buf; unroll12!(i, { if i < r.len() { assert!(r[i] == whole[i]); } });
+                    assert!(!lex_gt12(&r, &s.buf[..s.len]));
+                    kani::cover!(r.len() < l); kani::cover!(r.len() == l && k == $k - 1);
+                }
+            }
+        }
+    };
+}
+// @unit name=truncate_utf8_2chars props=C07 kind=bounded bound=<=2_scalar_values fns=truncate_utf8 timeout=600
+truncate_utf8_unit!(truncate_utf8_2chars, 2, 8, 10);
+// @unit name=truncate_utf8_3chars props=C07 kind=bounded bound=<=3_scalar_values fns=truncate_utf8 tier=thorough mem=6 timeout=1800
+truncate_utf8_unit!(truncate_utf8_3chars, 3, 12, 14);
+
+// Contract (C07): truncate_and_increment_utf8(s, l) under the caller's precondition len(s) > l:
+//   let p = the longest prefix of s made of whole characters with len(p) <= l. The result is increment_utf8's contract
+//   applied to p: None <=> p has no incrementable character (in particular p empty);
+//   Some(r) <=> r = utf8(p[..j], p[j] + 1) for the last incrementable j. Hence r is valid UTF-8, len(r) <= l, and r > s
+//   bytewise (an UPPER bound of the untruncated value).
+macro_rules! truncate_incr_utf8_unit {
+    ($name:ident, $k:expr, $b:expr, $unw:expr) => {
+        #[kani::proof]
+        #[kani::unwind($unw)]
+        fn $name() {
+            let s = sym_str::<$k, $b>();
+            let l: usize = kani::any(); kani::assume(l < s.len);
+            let (k, _) = s.fit(l);
+            match (s.spec_increment(k), truncate_and_increment_utf8(s.as_str(), l)) {
+                (None, None) => { kani::cover!(k == 0); kani::cover!(k == 1 && s.ch[0] == '\u{7ff}'); }
+                (Some((keep, c)), Some(r)) => {
+                    assert!(s.is_prefix_plus(&r, keep, c));
+                    assert!(r.len() <= l);
+                    assert!(lex_gt12(&r, &s.buf[..s.len]));
+                    kani::cover!(r.len() == l); kani::cover!(r.len() + 3 == l);
+                }
+                _ => assert!(false),
+            }
+        }
+    };
+}
+// @unit name=truncate_and_increment_utf8_2chars props=C07 kind=bounded bound=<=2_scalar_values fns=truncate_and_increment_utf8,increment_utf8 tier=thorough mem=6 timeout=1800
+truncate_incr_utf8_unit!(truncate_and_increment_utf8_2chars, 2, 8, 6);
